@@ -32,6 +32,9 @@ type modelCfg struct {
 	silentNot int
 }
 
+// handleReal: like handle, for a server whose handlers are juno's own (nothing is recorded)
+func (w *World) handleReal(input []byte) Obs { return w.handle(input) }
+
 func (w *World) handle(input []byte) Obs {
 	w.reset()
 	var o Obs
@@ -466,50 +469,95 @@ func main() {
 	}
 
 	r := lib.NewRNG(f.Seed)
-	fail := func(err error) {
-		if err != nil {
-			res.Note("run aborted: %v", err)
-			res.Mismatch(lib.Mismatch{Sig: "harness-run-aborted", Model: err.Error()})
-			lib.Finish(f, res)
+	// Jobs are independent (own world, own PRNG stream forked from the seed, own driver process per
+	// worker), so they run in parallel; what is generated does not depend on the schedule.
+	type job struct {
+		spec   WorldSpec
+		inputs func(w *World) [][]byte
+	}
+	var jobs []job
+	randomInputs := func(stream uint64, n int) func(w *World) [][]byte {
+		return func(w *World) [][]byte {
+			g := &Gen{r: r.Fork(stream), w: w}
+			out := make([][]byte, 0, n)
+			for k := 0; k < n; k++ {
+				out = append(out, g.input())
+			}
+			return out
 		}
 	}
-	// 1. fixed world: corpus + exhaustive member combinations + random
+	// 1. fixed worlds: corpus + exhaustive member combinations + random
 	nRandom := f.Scale(6000, 150000)
+	const chunk = 3000
 	for i, spec := range []WorldSpec{fixedWorld(false, 4), fixedWorld(false, 1), fixedWorld(true, 3)} {
-		w, _ := NewWorld(spec)
-		inputs := corpus(w)
-		if i == 0 {
-			inputs = append(inputs, exhaustive()...)
-		}
-		g := &Gen{r: r.Fork(uint64(i)), w: w}
+		i := i
+		jobs = append(jobs, job{spec, func(w *World) [][]byte {
+			in := corpus(w)
+			if i == 0 {
+				in = append(in, exhaustive()...)
+			}
+			return in
+		}})
 		n := nRandom
 		if i > 0 {
 			n = nRandom / 6
 		}
-		for k := 0; k < n; k++ {
-			inputs = append(inputs, g.input())
+		for c := 0; c*chunk < n; c++ {
+			jobs = append(jobs, job{spec, randomInputs(uint64(i*100000+c), min(chunk, n-c*chunk))})
 		}
-		fail(rn.runWorld(spec, inputs))
 	}
 	// 2. random tables
 	nWorlds := f.Scale(40, 600)
 	per := f.Scale(250, 600)
 	for i := 0; i < nWorlds; i++ {
-		wr := r.Fork(uint64(1000 + i))
-		spec := randomWorld(wr)
-		w, err := NewWorld(spec)
-		if err != nil {
-			res.Note("random world rejected: %v", err)
-			continue
-		}
-		inputs := corpus(w)
-		g := &Gen{r: wr, w: w}
-		for k := 0; k < per; k++ {
-			inputs = append(inputs, g.input())
-		}
-		fail(rn.runWorld(spec, inputs))
+		spec := randomWorld(r.Fork(uint64(1000 + i)))
+		stream := uint64(5000000 + i)
+		jobs = append(jobs, job{spec, func(w *World) [][]byte {
+			return append(corpus(w), randomInputs(stream, per)(w)...)
+		}})
 	}
-	// 3. transports
+	workers := 8
+	jobc := make(chan job)
+	errc := make(chan error, workers)
+	for k := 0; k < workers; k++ {
+		go func() {
+			d, err := lib.StartDriver(f.Driver)
+			if err != nil {
+				for range jobc {
+				}
+				errc <- err
+				return
+			}
+			defer d.Close()
+			wr := &runner{f: f, res: res, drv: d, cfg: cfg}
+			var first error
+			for j := range jobc {
+				if first != nil {
+					continue
+				}
+				w, err := NewWorld(j.spec)
+				if err != nil {
+					res.Note("world rejected: %v", err)
+					continue
+				}
+				first = wr.runWorld(j.spec, j.inputs(w))
+			}
+			errc <- first
+		}()
+	}
+	for _, j := range jobs {
+		jobc <- j
+	}
+	close(jobc)
+	for k := 0; k < workers; k++ {
+		if err := <-errc; err != nil {
+			res.Note("run aborted: %v", err)
+			res.Mismatch(lib.Mismatch{Sig: "harness-run-aborted", Model: err.Error()})
+		}
+	}
+	// 3. the method tables juno serves
+	rn.realTables()
+	// 4. transports
 	{
 		spec := fixedWorld(false, 4)
 		w, _ := NewWorld(spec)
